@@ -96,6 +96,31 @@ def run(tier):
             return any(nonunit_delta(x) for x in t)
         return False
 
+    def selfref_delta(t):
+        """a directly constructed multi-name Delta in which the point of one name depends on another
+        name of the SAME Delta (KF-delta-self-referential)"""
+        def names(x, acc):
+            if isinstance(x, dict):
+                if x.get("c") == "Ten":
+                    acc.update(n for n, _ in x["ins"])
+                if x.get("c") == "Var":
+                    acc.add(x.get("name", x.get("n")))
+                for y in x.values():
+                    names(y, acc)
+            elif isinstance(x, list):
+                for y in x:
+                    names(y, acc)
+            return acc
+        if isinstance(t, dict):
+            if t.get("c") == "Delta":
+                own = {n for n, _, _ in t["terms"]}
+                if any(names(pt, set()) & own for _, pt, _ in t["terms"]):
+                    return True
+            return any(selfref_delta(x) for x in t.values())
+        if isinstance(t, list):
+            return any(selfref_delta(x) for x in t)
+        return False
+
     def bool_add(t):
         """an addition (Binary add / Contraction with bin_op add) of two or more operands that are
         boolean-typed tensors or numbers: numpy's bool + bool is OR (KF-bool-add)"""
@@ -111,7 +136,8 @@ def run(tier):
         out, uniq, "C02", lambda e: "%s|%s%s" % (e["rule"], replay.term_sig(e["lhs"], 1),
                                                  "|nonunit_delta" if nonunit_delta(e["lhs"]) else "")
                           + ("|reduces_absent_var" if reduces_absent_var(e["lhs"]) else "")
-                          + ("|bool_add" if bool_add(e["lhs"]) else ""),
+                          + ("|bool_add" if bool_add(e["lhs"]) else "")
+                          + ("|selfref_delta" if selfref_delta(e["lhs"]) else ""),
         timeout=300 if tier == "quick" else 2400)
     rules = Counter(e["rule"] for e in uniq)
     out.coverage = {
